@@ -47,6 +47,7 @@ typedef struct scan_result {
     bool sr_huge;
     bool sr_has_data;		/* YAML parses and some calibration has >= 1 data entry */
     bool sr_yaml_ok;
+    bool sr_unsupported_version;	/* first line: "#VNACal M.m" with M > 1, or "#VNACAL M.m" with M other than 2, 3 */
     char sr_kind_error[120];	/* non-empty: a node the loader must visit has the wrong YAML kind */
 } scan_result_t;
 
@@ -179,10 +180,13 @@ static void scan_input(const uint8_t *data, size_t size, scan_result_t *sr)
 	}
 	memcpy(line, data, n);
 	line[n] = '\0';
-	if (sscanf(line, "#VNACal %d.%d", &major, &minor) == 2)
+	if (sscanf(line, "#VNACal %d.%d", &major, &minor) == 2) {
 	    legacy_sets = major == 0;
-	else if (sscanf(line, "#VNACAL %d.%d", &major, &minor) == 2)
+	    sr->sr_unsupported_version = major > 1;
+	} else if (sscanf(line, "#VNACAL %d.%d", &major, &minor) == 2) {
 	    legacy_sets = major == 2;
+	    sr->sr_unsupported_version = major != 2 && major != 3;
+	}
     }
     /* the loader takes the first line (at most 80 bytes) with fgets */
     while (skip < size && skip < 80 && data[skip] != '\n')
@@ -543,6 +547,11 @@ int LLVMFuzzerTestOneInput(const uint8_t *data, size_t size)
     memfile_close(&in);
     if (vcp == NULL) {
 	fz_check_failure("vnacal_load", err, &el);
+	if (sr.sr_unsupported_version && err != ENOMEM) {
+	    FZ_CHECK(err == ENOPROTOOPT && el.el_last_category == VNAERR_VERSION, "C09.unsupported_version_not_reported_as_version",
+		    "the first line declares an unsupported version but the failure is category %d, errno %d (%s): %s",
+		    el.el_last_category, err, strerror(err), el.el_last);
+	}
 	if (sr.sr_has_data) {
 	    fz_count(FZC_FAILED_DATA);
 	    fz_count(FZC_NONTRIVIAL);
@@ -554,6 +563,7 @@ int LLVMFuzzerTestOneInput(const uint8_t *data, size_t size)
 	return 0;
     }
     fz_check_success("vnacal_load", &el);
+    FZ_CHECK(!sr.sr_unsupported_version, "C09.unsupported_version_accepted", "the first line declares an unsupported version but the file was loaded");
     /* independent node-kind model: a file with a node of the wrong YAML kind where the loader has to read must not load */
     FZ_CHECK(sr.sr_kind_error[0] == '\0', "C09.vnacal_wrong_node_kind_accepted", "vnacal_load accepted a file in which %s", sr.sr_kind_error);
     fz_count(FZC_LOADED_OK);
